@@ -31,6 +31,161 @@ def norm(node):
 # E1 loader
 # ----------------------------------------------------------------------------------------------
 
+def _inline_callable_aliases(tree):
+    """Canonicalisation at load time: a local that is bound ONCE to an attribute chain (`readline = input_file.readline`,
+    `found = acc.append`, `show = self.out.show`) and is used ONLY as the callee of calls is a hoisted bound method.  Every such call is
+    rewritten to the spelled-out method call, so that syntactic scans, the call graph and the path interpreter all see `input_file.readline()`.
+    Conditions (all checked on the function's own body, nested scopes excluded): the local is not a parameter, global or nonlocal, has exactly one
+    binding and it is that plain assignment; every load of it is the `func` of a Call located after the assignment; the base name of the chain is
+    bound at most once in the function, before the alias; no attribute of the chain is stored to in the function.  Returns the number of calls rewritten."""
+    count = 0
+
+    def own_nodes(fn):
+        out = []
+
+        def walk(n, top):
+            if not top and isinstance(n, (ast.FunctionDef, ast.AsyncFunctionDef, ast.ClassDef, ast.Lambda)):
+                out.append(('nested', n))
+                return
+            out.append(('own', n))
+            for c in ast.iter_child_nodes(n):
+                walk(c, False)
+        for st in fn.body:
+            walk(st, False)
+        return out
+
+    for fn in [n for n in ast.walk(tree) if isinstance(n, (ast.FunctionDef, ast.AsyncFunctionDef))]:
+        nodes = own_nodes(fn)
+        own = [n for k, n in nodes if k == 'own']
+        nested = [n for k, n in nodes if k == 'nested']
+        params = {a.arg for a in fn.args.posonlyargs + fn.args.args + fn.args.kwonlyargs}
+        if fn.args.vararg:
+            params.add(fn.args.vararg.arg)
+        if fn.args.kwarg:
+            params.add(fn.args.kwarg.arg)
+        declared = set()
+        for n in own:
+            if isinstance(n, (ast.Global, ast.Nonlocal)):
+                declared.update(n.names)
+        stores = {}
+        for n in own:
+            if isinstance(n, ast.Name) and isinstance(n.ctx, (ast.Store, ast.Del)):
+                stores.setdefault(n.id, []).append(n)
+            elif isinstance(n, ast.ExceptHandler) and n.name:
+                stores.setdefault(n.name, []).append(n)
+            elif isinstance(n, (ast.Import, ast.ImportFrom)):
+                for a in n.names:
+                    stores.setdefault((a.asname or a.name).split('.')[0], []).append(n)
+        nested_names = {x.id for nn in nested for x in ast.walk(nn) if isinstance(x, ast.Name)}
+        attr_stores = {norm(n) for n in own if isinstance(n, ast.Attribute) and isinstance(n.ctx, (ast.Store, ast.Del))}
+        call_funcs = {id(n.func) for n in own if isinstance(n, ast.Call)}
+        for st in own:
+            if not (isinstance(st, ast.Assign) and len(st.targets) == 1 and isinstance(st.targets[0], ast.Name)):
+                continue
+            x = st.targets[0].id
+            v = st.value
+            if x in params or x in declared or x in nested_names or len(stores.get(x, [])) != 1:
+                continue
+            chain = v
+            ok = isinstance(chain, ast.Attribute)
+            prefixes = []
+            while isinstance(chain, ast.Attribute):
+                prefixes.append(norm(chain))
+                chain = chain.value
+            if not ok or not isinstance(chain, ast.Name):
+                continue
+            base = chain.id
+            bst = stores.get(base, [])
+            if base in declared or len(bst) > 1 or (bst and (base in params or getattr(bst[0], 'lineno', 0) >= st.lineno)):
+                continue
+            if any(p_ in attr_stores for p_ in prefixes):
+                continue
+            loads = [n for n in own if isinstance(n, ast.Name) and n.id == x and isinstance(n.ctx, ast.Load)]
+            if not loads or not all(id(n) in call_funcs and (n.lineno, n.col_offset) > (st.lineno, st.col_offset) for n in loads):
+                continue
+            for call in [n for n in own if isinstance(n, ast.Call) and isinstance(n.func, ast.Name) and n.func.id == x]:
+                new = ast.parse(norm(v), mode='eval').body
+                for y in ast.walk(new):
+                    y.lineno, y.col_offset = call.func.lineno, call.func.col_offset
+                    y.end_lineno, y.end_col_offset = getattr(call.func, 'end_lineno', call.func.lineno), getattr(call.func, 'end_col_offset', call.func.col_offset)
+                call.func = new
+                count += 1
+    return count
+
+
+_CANON_VARS = None
+
+
+def _canon_module_vars(modname):
+    """names bound at module level on the pinned tree (None when the module is unknown / the table is missing)"""
+    global _CANON_VARS
+    if _CANON_VARS is None:
+        import json
+        try:
+            with open(os.path.join(os.path.dirname(os.path.abspath(__file__)), 'canon_params.json')) as fh:
+                _CANON_VARS = json.load(fh).get('module_vars', {})
+        except (OSError, ValueError):
+            _CANON_VARS = {}
+    return _CANON_VARS.get(modname)
+
+
+def _inline_new_compiled_regexes(tree, modname):
+    """Canonicalisation at load time: a module-level `X = re.compile(P[, flags])` that did not exist on the pinned tree is a hoisted
+    pattern.  `X.split(s, 1)`, `X.sub(r, s)`, `X.match(s)` ... inside this module are rewritten to the module-function spelling
+    `re.split(P, s, 1)` they were hoisted from (the `re` module caches compiled patterns, the two are the same function of their arguments).
+    Only for names bound exactly once at module level, never declared global, in modules that import `re` under that name."""
+    canon = _canon_module_vars(modname)
+    if canon is None:
+        return 0
+    if not any(isinstance(st, ast.Import) and any(a.name == 're' and a.asname is None for a in st.names) for st in tree.body):
+        return 0
+    binds = {}
+    for st in tree.body:
+        for n in ast.walk(st) if not isinstance(st, (ast.FunctionDef, ast.AsyncFunctionDef, ast.ClassDef)) else []:
+            if isinstance(n, ast.Name) and isinstance(n.ctx, ast.Store):
+                binds[n.id] = binds.get(n.id, 0) + 1
+    globals_declared = {nm for n in ast.walk(tree) if isinstance(n, ast.Global) for nm in n.names}
+    pats = {}
+    for st in tree.body:
+        if isinstance(st, ast.Assign) and len(st.targets) == 1 and isinstance(st.targets[0], ast.Name) and isinstance(st.value, ast.Call) \
+                and norm(st.value.func) == 're.compile' and 1 <= len(st.value.args) <= 2 and all(k.arg == 'flags' for k in st.value.keywords):
+            x = st.targets[0].id
+            if x in canon or binds.get(x) != 1 or x in globals_declared:
+                continue
+            flags = st.value.args[1] if len(st.value.args) == 2 else (st.value.keywords[0].value if st.value.keywords else None)
+            pats[x] = (st.value.args[0], flags)
+    if not pats:
+        return 0
+    count = 0
+    for call in [n for n in ast.walk(tree) if isinstance(n, ast.Call)]:
+        fn = call.func
+        if not (isinstance(fn, ast.Attribute) and isinstance(fn.value, ast.Name) and fn.value.id in pats):
+            continue
+        m = fn.attr
+        if m in ('match', 'search', 'fullmatch', 'findall', 'finditer'):
+            if len(call.args) != 1 or call.keywords:
+                continue
+        elif m not in ('split', 'sub', 'subn'):
+            continue
+        if any(isinstance(a, ast.Starred) for a in call.args) or any(k.arg is None or k.arg == 'flags' for k in call.keywords):
+            continue
+        pat, flags = pats[fn.value.id]
+
+        def fresh(node):
+            c = ast.parse(norm(node), mode='eval').body
+            for y in ast.walk(c):
+                y.lineno, y.col_offset = call.lineno, call.col_offset
+                y.end_lineno, y.end_col_offset = getattr(call, 'end_lineno', call.lineno), getattr(call, 'end_col_offset', call.col_offset)
+            return c
+        newf = fresh(ast.Attribute(value=ast.Name(id='re', ctx=ast.Load()), attr=m, ctx=ast.Load()))
+        call.func = newf
+        call.args = [fresh(pat)] + list(call.args)
+        if flags is not None:
+            call.keywords = list(call.keywords) + [ast.keyword(arg='flags', value=fresh(flags))]
+        count += 1
+    return count
+
+
 class Module:
     def __init__(self, name, relpath, src, is_pkg):
         self.name = name
@@ -41,6 +196,8 @@ class Module:
             self.tree = ast.parse(src, filename=relpath)
         except SyntaxError as e:
             raise AnalysisError('%s does not parse: %s' % (relpath, e))
+        self.inlined_aliases = _inline_callable_aliases(self.tree)
+        self.inlined_regexes = _inline_new_compiled_regexes(self.tree, name)
         for n in ast.walk(self.tree):
             for c in ast.iter_child_nodes(n):
                 c._parent = n
@@ -390,9 +547,11 @@ class Repo:
                         if isinstance(t, ast.Name):
                             scope[t.id] = ('var', st.value, None, m)
                         elif isinstance(t, ast.Tuple):
-                            for e in t.elts:
+                            comps = st.value.elts if isinstance(st.value, ast.Tuple) and len(st.value.elts) == len(t.elts) \
+                                and not any(isinstance(x, ast.Starred) for x in list(t.elts) + list(st.value.elts)) else None
+                            for i_, e in enumerate(t.elts):
                                 if isinstance(e, ast.Name):
-                                    scope[e.id] = ('var', None, None, m)
+                                    scope[e.id] = ('var', comps[i_] if comps is not None else None, None, m)     # A, B = x, y  is  A = x; B = y
                 elif isinstance(st, ast.AnnAssign) and isinstance(st.target, ast.Name):
                     scope[st.target.id] = ('var', st.value, st.annotation, m)
                 elif isinstance(st, ast.If):
@@ -1228,8 +1387,8 @@ class CallGraph:
                 s.kind = 'virtual' if s.kind not in ('ctor',) else s.kind
                 s.targets.add(m)
                 for k in repo.subclasses(c):
-                    if fn.attr in k.methods:
-                        s.targets.add(k.methods[fn.attr])
+                    if m.name in k.methods:         # (the callee may be a local bound to the method: `f = x.m; f(..)`)
+                        s.targets.add(k.methods[m.name])
             elif ct[0] == 'dissmethod':
                 L, name = ct[1], ct[2]
                 if name in ('add_listener', 'remove_listener'):
